@@ -1,13 +1,13 @@
 SPECIFICATION Spec
 CONSTANTS
-  GenFiles = {1, 3, 4}
+  GenFiles = {1, 2, 3}
   OtherFiles = {}
   Modes = {292, 420}
   Variants = {0, 2}
-  ChmodGate = TRUE
+  ChmodGate = FALSE
   CopyGate = TRUE
   Truncates = TRUE
-  Privileged = FALSE
+  Privileged = TRUE
   OptsSel = "all"
   EnvOn = TRUE
   Record = FALSE
@@ -15,8 +15,4 @@ CONSTANTS
 INVARIANT TypeOK
 INVARIANT RunEndOK
 INVARIANT NoTornFile
-INVARIANT IdleModes
-INVARIANT NeverDenied
-INVARIANT RefusedOnlyOnConflict
-INVARIANT UntouchedOthers
 CHECK_DEADLOCK FALSE
